@@ -186,9 +186,14 @@ def outputs(sim):
 def differences(R, O):
     out = []
     for k in ("pilots", "rates"):
-        if R[k].shape != O[k].shape:
+        if R[k].shape[0] != O[k].shape[0]:
             out.append(f"{k}.shape {O[k].shape} vs reference {R[k].shape}")
         else:
+            # how many all-zero reserve columns a matrix holds is storage, not a result: compared over the common width, zero beyond
+            w_ = max(R[k].shape[1], O[k].shape[1])
+            Rk = np.zeros((R[k].shape[0], w_)); Rk[:, :R[k].shape[1]] = R[k]
+            Ok = np.zeros((O[k].shape[0], w_)); Ok[:, :O[k].shape[1]] = O[k]
+            R, O = dict(R, **{k: Rk}), dict(O, **{k: Ok})
             bad = ~np.isclose(R[k], O[k], rtol=1e-9, atol=1e-12)
             if bad.any():
                 i, t = [int(x) for x in np.argwhere(bad)[0]]
@@ -395,7 +400,8 @@ def judge_point(d, R, T, pt, leg, mode, obs, wit):
         # ---- pending events pop in the same order
         q1, q2 = drain(sim.event_queue), drain(s2.event_queue)
         obs.ev("queue_orders_compared")
-        if sorted(q1) != sorted(q2) or key_sorted(q2) != sorted(key_sorted(q2)) or key_sorted(q1) != key_sorted(q2):
+        # the loaded queue must pop what the original pops, in the original's order (what that order is: C01 and C11)
+        if sorted(q1) != sorted(q2) or key_sorted(q1) != key_sorted(q2):
             obs.violate("pending_queue_differs", f"original pops {q1[:6]}, loaded pops {q2[:6]}", **w)
         # ---- shared objects are shared again
         for st in s2.network.station_ids:
@@ -410,8 +416,9 @@ def judge_point(d, R, T, pt, leg, mode, obs, wit):
             if len(unp) != 1 or unp[0].ev is not ev:
                 obs.violate("identity_station_vs_pending_unplug", f"station {st}: {len(unp)} pending unplug events; same object: "
                             f"{[u.ev is ev for u in unp]}", **w)
-            if len(plug) != 1 or plug[0].ev is not ev:
-                obs.violate("identity_station_vs_event_history", f"station {st}: plugin event in history does not share the EV", **w)
+            # the statement names the station, the session history and the pending events; whether the already-executed plugin
+            # event in event_history shares the object too is recorded only
+            obs.ev("executed_plugin_event_shares_the_ev" if len(plug) == 1 and plug[0].ev is ev else "executed_plugin_event_holds_another_ev_object")
         s2.update_scheduler(fl)  # the scheduler is given again
         sim = s2
     try:
